@@ -3,7 +3,8 @@
 //
 // A case is a tree plus a route:
 //
-//	scan <route> <seed> <variants>       route r = real directory scan root (DirectFS), v = virtual FS (ScanRoot.Path == "")
+//	scan <route> <seed> <variants>       route r = real directory scan root (DirectFS), v = virtual FS (ScanRoot.Path == ""), Linux capabilities;
+//	                                     w/x = the same with Windows capabilities, m/n with macOS capabilities
 //
 // <variants> has one character per entry of the file table below: 0 valid (content copied from the repository's
 // fixtures, which are never scanned in place), 1 zero bytes, 2 truncated to half, 3 random bytes of the same length,
@@ -164,6 +165,16 @@ var groups = []group{
 	{"chrome-extension", "home/u/.config/google-chrome/Default/Extensions/aapbdbdomjkkjkaonfhkkikfgjllcleb/1.0_0/manifest.json",
 		[]string{"home/u/.config/google-chrome/Default/Extensions/aapbdbdomjkkjkaonfhkkikfgjllcleb/1.0_0/_locales/en/message.json"}},
 	{"os-release", "var/lib/dpkg/status", []string{"etc/os-release", "usr/lib/os-release"}},
+}
+
+// groups that only run under another OS profile: name, primary, routes
+var osGroups = []struct {
+	primary string
+	routes  string
+}{
+	{"app/Magic.dll", "wx"},
+	{"app/Magic.exe", "wx"},
+	{"app/HelloWorldApp.dll", "wx"},
 }
 
 func repoRoot() string {
@@ -340,9 +351,18 @@ func runCase(route byte, seed int64, variants string, id int) string {
 	must(os.Chdir(cwd))
 	defer os.Chdir(orig)
 	before, tb, cb := snapshot(tree), snapshot(tmp), snapshot(cwd)
-	caps := &plugin.Capabilities{OS: plugin.OSLinux, Network: plugin.NetworkOffline, DirectFS: route == 'r', RunningSystem: false}
+	// routes: r/v = Linux capabilities, real directory root / virtual FS; w/x = Windows, m/n = macOS likewise (extractors that
+	// require another OS, e.g. the .NET PE one, only run under that profile; their code is plain file parsing)
+	osCap, real := plugin.OSLinux, route == 'r'
+	switch route {
+	case 'w', 'x':
+		osCap, real = plugin.OSWindows, route == 'w'
+	case 'm', 'n':
+		osCap, real = plugin.OSMac, route == 'm'
+	}
+	caps := &plugin.Capabilities{OS: osCap, Network: plugin.NetworkOffline, DirectFS: real, RunningSystem: false}
 	roots := scalibrfs.RealFSScanRoots(tree)
-	if route == 'v' {
+	if !real {
 		roots = []*scalibrfs.ScanRoot{{FS: scalibrfs.DirFS(tree), Path: ""}}
 	}
 	exs := list.FromCapabilities(caps)
@@ -372,6 +392,7 @@ func main() {
 	o := hx.Parse()
 	log.SetLogger(nopLogger{})
 	out := hx.NewOut()
+	os.Stdout = os.Stderr // libraries under scan (the PE parser) print to os.Stdout; the protocol stream keeps the real one
 	defer out.Flush()
 	var err error
 	base, err = os.MkdirTemp("", "c06scan-*")
@@ -469,6 +490,16 @@ func main() {
 			emit(route, 3, with(ch))
 		}
 	}
+	for _, route := range []byte("wxmn") {
+		emit(route, 1, with(nil)) // the pristine tree under the other OS profiles
+	}
+	for _, g := range osGroups {
+		for _, route := range []byte(g.routes) {
+			for _, c := range []byte{'1', '2', '3', '4'} {
+				emit(route, int64(c), with(map[int]byte{index(g.primary): c}))
+			}
+		}
+	}
 	r := hx.Rng(o)
 	for i := 0; i < o.N; i++ {
 		seed := r.Int63()
@@ -477,6 +508,6 @@ func main() {
 		for k := range v {
 			v[k] = "0000123455"[cr.Intn(10)]
 		}
-		emit("rv"[i%2], seed, string(v))
+		emit("rvrvwxmn"[i%8], seed, string(v))
 	}
 }
